@@ -597,11 +597,9 @@ theorem applySub_ctxWF (ll : LookupList) (kp : Nat → Bool) (st : St) (a : Nat)
         cases y with
         | none => trivial
         | some _ =>
-          refine hwf.push (a :: ps) actions next ?_ h2 hacts
+          refine hwf.push ps actions next ?_ h2 hacts
           intro z hz
-          rcases List.mem_cons.mp hz with hz | hz
-          · subst hz; exact ha
-          · exact h1 z hz
+          exact h1 z hz
   | gsub11 _ _ => simp [Subtable.contextual] at hs
   | gsub12 _ _ => simp [Subtable.contextual] at hs
   | gsub21 _ _ => simp [Subtable.contextual] at hs
@@ -935,9 +933,15 @@ theorem applyLookups_safeN (B : Nat) (ll : LookupList) (gd : Gdef)
     · exact ih st hst
     · rename_i lk hlk
       have hmem : lk ∈ ll := List.mem_of_getElem? hlk
-      refine Safe.bind (lookupLoop_safe' B ll gd lk
-        (fun st pos h0 hlt hs => applyAtRec_safeN B ll gd hg hn lk hmem st pos h0 hlt hs)
-        st.seq.length st 0 (Int.le_refl _) hst) ?_
+      have hone : Safe (fun st' => st'.stack = []) (applyLookup B ll gd lk st) := by
+        unfold applyLookup
+        split
+        · rename_i hrev
+          exact revLoop_safe gd lk (List.all_eq_true.mp hg lk hmem) hrev _ st (Nat.le_refl _) hst
+        · exact lookupLoop_safe' B ll gd lk
+            (fun st pos h0 hlt hs => applyAtRec_safeN B ll gd hg hn lk hmem st pos h0 hlt hs)
+            st.seq.length st 0 (Int.le_refl _) hst
+      refine Safe.bind hone ?_
       intro st1 _ h1
       exact ih st1 h1
 
